@@ -14,6 +14,9 @@ CHECKS = {
  "C08": dict(level="model_checking", sec="3/C08", technique="stateright explicit-state BFS over all store/fork/set_permissions histories on the real paged::Memory (two slots) against a byte-map reference model",
    text="Every history of stores (8/16/32/64 bit at every address around the 0x400 page boundary, two slots), clone and set_permissions to depth 2 (tiny alphabet 3) in quick, depth 3 (reduced alphabet 4) in thorough, for endian x backing x {Constant, Expression}; every load width 8..128 at every window address, reflexive equality, equality=>same contents and permissions compared in every state. Longer histories and other page boundaries are not covered.",
    note="Trusted: BTreeMap byte reference; Expression loads are evaluated with executor::eval (checked by C04). Permissions of addresses sharing a page with a set range but outside it are unspecified and not compared."),
+ "C07": dict(level="model_checking", sec="3/C07", technique="exhaustive enumeration of small IL programs x initial states; lock-step explicit-state product of executor::Driver and a reference IL interpreter, loops closed by state dedup",
+   text="Every function on <=2 blocks x every filling with <=2 (thorough 3) of 21 operations x shapes incl. single conditional edges, non-exhaustive and three-way guards x endianness x initial valuations x memory pre-fill; location, scalars and memory compared after every step, error classes must correspond, on-demand lifting followed. Larger programs/other operand values are not covered.",
+   note="Trusted: refil reference semantics (harness). End of a terminal block = ExecutorNoValidLocation accepted as termination."),
 }
 NA = []
 def main():
